@@ -1,21 +1,46 @@
-"""Timeout helper without any genlm import (usable by the engine before workers import the repo)."""
+"""Timeout helper without any genlm import (usable by the engine before workers import the repo).
+
+`watchdog(seconds)` is nestable: an inner watchdog never cancels or extends an outer one (the earliest deadline wins,
+and the outer timer is re-armed with its remaining time when the inner block exits).
+"""
 import contextlib
 import signal
+import time
 
 
 class Timeout(Exception):
     pass
 
 
+_deadlines = []   # stack of (deadline, seconds)
+
+
+def _handler(signum, frame):
+    now = time.monotonic()
+    # raise for the innermost expired watchdog
+    for d, secs in reversed(_deadlines):
+        if d <= now + 1e-3:
+            raise Timeout(f"no result after {secs}s")
+    _arm()
+
+
+def _arm():
+    if not _deadlines:
+        signal.setitimer(signal.ITIMER_REAL, 0)
+        return
+    nxt = min(d for d, _ in _deadlines)
+    signal.setitimer(signal.ITIMER_REAL, max(nxt - time.monotonic(), 0.001))
+
+
 @contextlib.contextmanager
 def watchdog(seconds):
-    def handler(signum, frame):
-        raise Timeout(f"no result after {seconds}s")
-
-    old = signal.signal(signal.SIGALRM, handler)
-    signal.setitimer(signal.ITIMER_REAL, seconds)
+    old = signal.signal(signal.SIGALRM, _handler)
+    _deadlines.append((time.monotonic() + seconds, seconds))
+    _arm()
     try:
         yield
     finally:
-        signal.setitimer(signal.ITIMER_REAL, 0)
-        signal.signal(signal.SIGALRM, old)
+        _deadlines.pop()
+        _arm()
+        if not _deadlines:
+            signal.signal(signal.SIGALRM, old if old not in (None, _handler) else signal.SIG_DFL)
